@@ -51,6 +51,37 @@ Definition allowedb (c : tcfg) (a b : st) : bool :=
 
 Definition has_state (c : tcfg) (a : st) : bool := existsb (st_eqb a) (sts c).
 
+(* the documented lifecycle: New -> Booting -> Running <-> Reloading, Running -> Stopping -> Stopped *)
+Definition lifecycle_edge (a b : st) : bool :=
+  match a, b with
+  | New, Booting | Booting, Running | Running, Reloading | Reloading, Running
+  | Running, Stopping | Stopping, Stopped => true
+  | _, _ => false
+  end.
+
+(* everything else the table may contain: entering Error from any lifecycle state (or Error),
+   leaving Error towards Stopping/Stopped (shutdown of a failed runner), restarting a stopped
+   runner, and the isolated Unknown state *)
+Definition documented (a b : st) : bool :=
+  lifecycle_edge a b
+  || (st_eqb b Error && negb (st_eqb a Unknown))
+  || (st_eqb a Error && (st_eqb b Stopping || st_eqb b Stopped))
+  || (st_eqb a Stopped && st_eqb b New)
+  || (st_eqb a Unknown && st_eqb b Unknown).
+
+(* first step of a history that is outside the documented graph *)
+Fixpoint first_undocumented (a : st) (l : list st) : option (st * st) :=
+  match l with
+  | [] => None
+  | b :: t => if documented a b then first_undocumented b t else Some (a, b)
+  end.
+
+Fixpoint first_bad_step (c : tcfg) (a : st) (l : list st) : option (st * st) :=
+  match l with
+  | [] => None
+  | b :: t => if allowedb c a b || st_eqb b Error then first_bad_step c b t else Some (a, b)
+  end.
+
 (* the machine calls used by the runners *)
 Inductive op :=
 | OTrans (to : st)              (* Transition / TransitionBool *)
